@@ -46,13 +46,16 @@ const ATOMS: &[Atom] = &[
     Atom { renderings: &["."], canon: "(?s:.)", canon_posix: None, not_first: false },
     Atom { renderings: &["\\*"], canon: "\\*", canon_posix: None, not_first: false },
     Atom { renderings: &["a+"], canon: "a+", canon_posix: None, not_first: false },
+    // the character that closes a start-state list and a target state (after a prefix the regex
+    // must still be allowed to contain it)
+    Atom { renderings: &[">", "\\>"], canon: ">", canon_posix: None, not_first: false },
     // characters that are white space to Unicode (White_Space) but not to lex (Pattern_White_Space):
     // they belong to the regular expression wherever they stand, also right before the separator
     Atom { renderings: &["\u{a0}", "\\\u{a0}"], canon: "\u{a0}", canon_posix: None, not_first: false },
     Atom { renderings: &["\u{3000}"], canon: "\u{3000}", canon_posix: None, not_first: false },
 ];
 
-const DEN_ALPHABET: [&str; 16] = ["a", "q", "é", "<", "\"", "'", ";", " ", ".", "\\", "\n", "5", "A", "\u{8}", "\u{a0}", "\u{3000}"];
+const DEN_ALPHABET: [&str; 17] = ["a", "q", "é", "<", "\"", "'", ";", " ", ".", "\\", "\n", "5", "A", "\u{8}", "\u{a0}", "\u{3000}", ">"];
 
 fn strings(alpha: &[&str], n: usize) -> Vec<String> {
     let mut out = vec![String::new()];
